@@ -53,7 +53,7 @@ namespace Givaro {
     inline
     std::istream &ModularExtended<_Element>::read (std::istream &is, Element &x) const
     {
-        int64_t tmp;
+        int64_t tmp = 0;
         is >> tmp;
         init(x,tmp);
         return is;
